@@ -159,6 +159,7 @@ def round_trip(V, via):
         s2 = itp.call(itp.get_function(FR + 'fas2signal'), [fas, st['dt']], {})
         return fas, s2.attrs['_values']
     for out in V.run(op, setup):
+        out.replay_info = dict(module='fourier', op='round_trip', via=via)
         if not out.no_raise():
             continue
         N, x, dt = st['N'], st['x'], st['dt']
@@ -167,6 +168,13 @@ def round_trip(V, via):
         out.prove('reconstruction-has-the-padded-length', ok)
         if not ok:
             continue
+        # frame: the inverse helper only READS the half spectrum it is given -- the object still reports dt x DFT afterwards
+        F = V.np.np_fft(x)
+        after = V.itp.get_attr(st['sig'], 'fa_spectrum')
+        for k in range(N // 2):
+            want_k, got_k, arg_k = T.smul(T.as_cx(F[k]), dt), T.as_cx(after[k]), T.as_cx(fas[k])
+            out.prove('object-spectrum-unchanged-by-the-inverse-helper[%d]' % k, T.sand(T.seq(got_k.re, want_k.re), T.seq(got_k.im, want_k.im)), atomize=True)
+            out.prove('spectrum-argument-unchanged-by-the-inverse-helper[%d]' % k, T.sand(T.seq(arg_k.re, want_k.re), T.seq(arg_k.im, want_k.im)), atomize=True)
         mean = T.sdiv(sum_list([x[k] for k in range(N)]), N)
         nyq = T.sdiv(sum_list([T.smul(x[k], 1 if k % 2 == 0 else -1) for k in range(N)]), N)
         for k in range(N):
